@@ -32,6 +32,10 @@ OBLIGATION_KINDS = [
     (r'unable to prove pre-?condition', 'pre'),
     (r'unable to prove', 'assert'),
     (r'precondition not satisfied', 'pre'),
+    (r'precondition not met', 'pre'),                         # `precondition not met: index in bounds for this access` (array indexing)
+    (r'requirement not met', 'pre'),                          # `requirement not met: to access this field, the union must be in the correct variant`
+    (r'unable to prove this pattern will successfully match', 'assert'),
+    (r'cannot show this call will not unwind', 'pre'),
     (r'invariant not satisfied (before|at end of) loop', 'inv'),
     (r'loop invariant not (satisfied|preserved)', 'inv'),
     (r'invariant not satisfied', 'inv'),
